@@ -195,7 +195,28 @@ def run(ctx):
     # (Main.build) and programs with several currency zones, ExternalSector and gold standard (Main2.build2)
     gen_main.extra(ctx, out, 50, 800)
     gen_main2.extra(ctx, out)
+    out.failures.extend(finding_probes())
     return out
+
+
+def finding_probes():
+    """Recorded finding D01b: two TaxFlow sectors in one country (a shape the generator does not produce; the side
+    condition no_conflict of Main_stock_flow_consistent is false on it; found while proving coq/GenOrder)."""
+    import c08
+    prog = c08._probe_prog(['GOV', 'HH', 'TF', 'TF2', 'BUS', 'LAB', 'GOOD'], {'TF2': ('TaxFlow', {'taxrate': 0.1, 'taxes_paid_to': 'GOV'})})
+    fails = []
+    try:
+        a = GC.analyse(prog)
+        ts, e, _ = GC.solve(prog)
+        bad = GC.numeric_check(ts, make_targets(a, prog), kmin=2) if ts else []
+    except Exception as e:  # noqa
+        return [{'key': 'tax:two-taxflows', 'what': 'two TaxFlow sectors in one country: build/solve raises %r' % (e,),
+                 'replay': {'kind': 'program', 'prog': prog}}]
+    for (ti, k, val, scale, note) in bad[:1]:
+        fails.append({'key': 'tax:two-taxflows', 'what': 'two TaxFlow sectors in one country: the zone balance evaluates to %.6g at period %d '
+                      '(payers are debited 2*rate1*INC, the recipient is credited 2*rate2*INC)' % (val, k),
+                      'replay': {'kind': 'program', 'prog': prog}})
+    return fails
 
 
 def replay(path):
